@@ -90,13 +90,30 @@ def run(case):
     return res
 
 
+import signal
+
+
+class _Timeout(BaseException):
+    pass
+
+
+def _alarm(signum, frame):
+    raise _Timeout()
+
+
+signal.signal(signal.SIGALRM, _alarm)
 for line in sys.stdin:
     line = line.strip()
     if not line:
         continue
     try:
+        signal.alarm(120)
         out = run(json.loads(line))
+    except _Timeout:
+        out = {"ok": False, "exc": "Timeout", "msg": "case exceeded 120 s"}
     except BaseException as ex:  # noqa
         out = {"worker_error": f"{type(ex).__name__}: {ex}"}
+    finally:
+        signal.alarm(0)
     sys.stdout.write(json.dumps(out, default=str) + "\n")
     sys.stdout.flush()
